@@ -22,7 +22,7 @@ pub const ENTRY: Entry = Entry {
            of <= 3 run/block/pixel symbols crossing the capacities, also on rotated non-square displays) needs no more window set-ups than the sum over maximal \
            left-to-right runs of ceil(len / R), and never more than one per pixel, where the row capacity R is measured from the \
            driver's behaviour on one long run and must be >= 2. (3) the real SpiInterface sends a burst of b bytes in at most floor(b / \
-           usable) + 1 transactions (usable = floor(L/N)*N) for every call of the C06 alphabet, alone and after every other pixel call over the same byte alphabet. Only counts are observed, so any \
+           usable) + 1 transactions (usable = floor(L/N)*N) for every call of the C06 alphabet, alone and after every other pixel call over the same byte alphabet; (4) the same bound for every burst (pixel bytes after one memory-write-start) below the real Display on SPI - the in-bounds drawing alphabet, repeated same-colour fills, and fills of more than 65535 pixels on buffers holding a non-power-of-two number of pixels (counting mode). Only counts are observed, so any \
            re-chunking within the bounds is accepted. Non-trivial = streams with a run of >= 2 pixels / bursts longer than the buffer.",
     assumptions: &["without `batch` only the per-pixel bound applies to draw_iter"],
     run,
@@ -265,6 +265,121 @@ fn run(ctx: &Ctx) -> Part {
             })
             .reduce(Acc::new, Acc::merge);
         acc = acc.merge(a);
+    }
+    // (4) the same bound observed below the real Display (the pixel-format layer and Display sit between the caller
+    // and the transport): every burst = the pixel bytes following one memory-write-start command
+    if ctx.batch {
+        let mut djobs: Vec<Cfg> = Vec::new();
+        for (c666, len) in [(false, 2u16), (false, 5), (false, 8), (true, 3), (true, 7), (true, 64)] {
+            for o in [0u8, 3] {
+                djobs.push(Cfg::tiny(8, 6, c666, Transport::Spi { len }, (4, 3, 2, 1), o));
+            }
+        }
+        let a = djobs
+            .par_iter()
+            .fold(Acc::new, |mut acc, cfg| {
+                let (lw, lh) = cfg.geo().lsize();
+                let Transport::Spi { len } = cfg.tr else { unreachable!() };
+                let n = if cfg.c666() { 3u64 } else { 2 };
+                let usable = (len as u64 / n) * n;
+                let mut rig = Rig::new(cfg);
+                let mut ops = c01::alphabet(lw, lh, false);
+                ops.push(Op::Clear { c: 0x0F0F });
+                ops.push(Op::FillSolid { r: Rect { x: 0, y: 0, w: lw, h: lh }, c: 0x0F0F });
+                ops.push(Op::FillSolid { r: Rect { x: 0, y: 0, w: 2, h: 1 }, c: 0x0F0F });
+                ops.push(Op::Clear { c: 0x0F0F });
+                for op in &ops {
+                    let ev0 = rig.bd.borrow().evs.len();
+                    if !rig.apply(op).is_ok() {
+                        continue;
+                    }
+                    acc.evaluations += 1;
+                    let b = rig.bd.borrow();
+                    let mut burst: Option<(u64, u64)> = None;
+                    let mut bursts: Vec<(u64, u64)> = Vec::new();
+                    // the (empty) parameter write of the memory-write-start command is not part of the burst
+                    let mut just_started = false;
+                    for e in &b.evs[ev0..] {
+                        if matches!(e, crate::env::Ev::Pin { .. }) {
+                            continue;
+                        }
+                        let js = just_started;
+                        just_started = false;
+                        match *e {
+                            crate::env::Ev::SpiWrite { dc: false, ok: true, off, len, .. } => {
+                                if let Some(x) = burst.take() {
+                                    bursts.push(x);
+                                }
+                                if len == 1 && b.bytes[off as usize] == 0x2C {
+                                    burst = Some((0, 0));
+                                    just_started = true;
+                                }
+                            }
+                            crate::env::Ev::SpiWrite { dc: true, ok: true, len: 0, first: true, .. } if js => {}
+                            crate::env::Ev::SpiWrite { dc: true, ok: true, len, first, .. } => {
+                                if let Some(x) = burst.as_mut() {
+                                    x.0 += len as u64;
+                                    if first {
+                                        x.1 += 1;
+                                    }
+                                }
+                            }
+                            crate::env::Ev::SpiEmptyTxn { .. } => {
+                                if let Some(x) = burst.as_mut() {
+                                    x.1 += 1;
+                                }
+                            }
+                            _ => {}
+                        }
+                    }
+                    if let Some(x) = burst.take() {
+                        bursts.push(x);
+                    }
+                    for (bytes, tx) in bursts {
+                        acc.count("display_spi_bursts", 1);
+                        if bytes > usable {
+                            acc.nontrivial += 1;
+                        }
+                        if tx > bytes / usable + 1 {
+                            acc.violation(Violation {
+                                prop: ctx.prop.clone(),
+                                sig: "spi/too-many-transactions/display".into(),
+                                msg: format!("{op:?} on {:?}: {tx} SPI transactions for a burst of {bytes} bytes (usable buffer {usable}); bound {}", cfg.tr, bytes / usable + 1),
+                                case: json!({"kind": "c20", "variant": ctx.variant, "cfg": cfg, "op": op, "r": 0}),
+                            });
+                        }
+                    }
+                }
+                acc
+            })
+            .reduce(Acc::new, Acc::merge);
+        acc = acc.merge(a);
+        // fills of more than 65535 pixels (counts that do not fit 16 bits) on buffers that hold a non-power-of-two
+        // number of pixels, in counting mode
+        let big: Vec<(bool, u32, u32, u32, u16)> = vec![
+            (true, 35000, 2, 0x15A5A, 512),
+            (true, 65535, 3, 0x00000, 64),
+            (true, 480, 320, 0x3F000, 512),
+            (false, 65535, 2, 0x1234, 15),
+            (false, 40000, 5, 0xFFFF, 33),
+            (false, 320, 480, 0x0000, 64),
+        ];
+        for &(c666, w, h, colour, len) in &big {
+            acc.evaluations += 1;
+            acc.nontrivial += 1;
+            let (f, bytes, tx) = c06::display_extreme(c666, w, h, colour, len);
+            acc.count("display_spi_big_fills", 1);
+            let n = if c666 { 3u64 } else { 2 };
+            let usable = (len as u64 / n) * n;
+            if f.is_none() && tx > bytes / usable + 1 {
+                acc.violation(Violation {
+                    prop: ctx.prop.clone(),
+                    sig: "spi/too-many-transactions/display".into(),
+                    msg: format!("{} fill_solid of {w}x{h} pixels over SpiInterface({len}): {tx} SPI transactions for {bytes} bytes (usable buffer {usable}); bound {}", if c666 { "Rgb666" } else { "Rgb565" }, bytes / usable + 1),
+                    case: json!({"kind": "c06d", "variant": ctx.variant, "c666": c666, "w": w, "h": h, "colour": colour, "len": len}),
+                });
+            }
+        }
     }
     acc.transitions = acc.evaluations;
     acc.traces = acc.evaluations;
